@@ -65,4 +65,30 @@ theorem clear_names_its_message (s : State) (c : SCall) (t : Sess) (ours other :
   · right; rfl
   · left; split <;> first | rfl | simp [hk, hk']
 
+/-- The admission decision stated outright: a submission is admitted iff its signature verifies
+(under the key of the sender it names — `verifyOk` is the harness's stdlib verdict in the tie, so a
+key attached to the signature plays no role) AND the sender it names is the authenticated identity
+of the submitting stream. -/
+theorem admit_iff (v : Bool) (g src : Nat) : admitOk v g src = true ↔ v = true ∧ g = src := by
+  simp [admitOk]
+
+/-- Requests before Init: a Session call is registered only by a valid Init (destination ≠ the
+stream's own identity, both identities present, the call not registered before)… -/
+theorem init_requires_valid (s : State) (c src dst : Nat) (h : enabled s (.init c src dst) = true) :
+    src ≠ dst ∧ src ≠ 0 ∧ dst ≠ 0 ∧ getSCall s c = none ∧ getLCall s c = none := by
+  simp only [enabled, Bool.and_eq_true, decide_eq_true_eq, Option.isNone_iff_eq_none] at h
+  obtain ⟨⟨⟨⟨h1, h2⟩, h3⟩, h4⟩, h5⟩ := h
+  exact ⟨h3, h4, h5, h1, h2⟩
+
+/-- …and no send / ack / clear of a call that never registered is a step of the relay: a stream
+whose first request is not a valid Init never reaches a critical section. -/
+theorem request_requires_registered (s : State) (c e k : Nat) (m : Msg) (v : Bool) (g : Nat)
+    (hc : getSCall s c = none) :
+    enabled s (.send c e m v g) = false ∧ enabled s (.ack c e k) = false ∧ enabled s (.clear c e k) = false := by
+  simp [enabled, hc]
+
+/-- Non-vacuity: a valid Init is enabled in the initial state, a self-dial is not. -/
+example : enabled {} (.init 1 1 2) = true ∧ enabled {} (.init 1 2 2) = false ∧ enabled {} (.send 1 0 ⟨1, 1⟩ true 1) = false := by
+  decide
+
 end Bifrost.Props.C20
